@@ -385,6 +385,28 @@ def object_case(c):
         if eta[3][j] == 0.0:
             j = (j + 1) % len(eta[3])
         c = dict(c, dt=-(cells + delta) * float(eta[2][2] - eta[2][1]) / float(eta[3][j]), almost_node=[j, cells, delta])
+    if c.get('twist_node'):
+        # twisted field lines AND a foot that lies exactly (in binary64, by the operations of the code) on a z node `cells`
+        # cells away for one (r, v): the step is then the node value displaced along theta, not a plain circular shift in z
+        j, ri, cells = c['twist_node']
+        j, ri = j % len(eta[3]), ri % len(eta[0])
+        if eta[3][j] == 0.0:
+            j = (j + 1) % len(eta[3])
+        io_ = const.iota(eta[0])
+        bz_ = 1 / np.sqrt(1 + (eta[0] * io_ / const.R0) ** 2)
+        dz_, z1_ = eta[2][2] - eta[2][1], eta[2][1]
+        dtc = -(cells * dz_) / (eta[3][j] * bz_[ri])
+        found = None
+        for direction in (np.inf, -np.inf):
+            d = dtc
+            for _ in range(12):
+                if z1_ + (-eta[3][j] * bz_[ri]) * d == z1_ + dz_ * cells:
+                    found = d
+                    break
+                d = np.nextafter(d, direction)
+            if found is not None:
+                break
+        c = dict(c, twist_node=[int(j), int(ri), int(cells)] if found is not None else None, dt=float(found) if found is not None else c['dt'])
     obj = FluxSurfaceAdvection(eta, [bs[1], bs[2]], lay, c['dt'], const)
     # the inputs of _getLagrangePts, by the same IEEE operations as the code
     r = eta[0]
@@ -396,7 +418,7 @@ def object_case(c):
     out = {'dz_spec': float((bs[2].domain[1] - bs[2].domain[0]) / len(eta[2])), 'dz': float(dz), 'z': float(eta[2][1]), 'dtheta': [float(x) for x in dtheta], 'zDist': zDist.tolist(),
            'shifts': obj._shifts.tolist(), 'tss': obj._thetaShifts.tolist(), 'lc': obj._lagrangeCoeffs.tolist(),
            'q': [float(x) for x in eta[1]], 'knots': [float(x) for x in bs[1].knots], 'deg': int(bs[1].degree),
-           'cu': bool(bs[1].cubic_uniform), 'steps': []}
+           'cu': bool(bs[1].cubic_uniform), 'steps': [], 'twist_node': c.get('twist_node')}
     nq, nz = len(eta[1]), len(eta[2])
     for t in range(c['nsteps']):
         rIdx, vIdx = rng.randrange(len(r)), rng.randrange(len(eta[3]))
@@ -404,6 +426,8 @@ def object_case(c):
             vIdx = rng.choice([0, len(eta[3]) - 1])                         # the longest displacement of the object
         if t == 2 and c.get('almost_node'):
             vIdx = c['almost_node'][0]                                      # the foot that lies just beside a node
+        if t == 2 and c.get('twist_node'):
+            vIdx, rIdx = c['twist_node'][0], c['twist_node'][1]             # the foot that lies exactly on a node, twisted field
         if t == 0:
             f = np.full((nq, nz), 0.75)                                    # constants
         else:
@@ -470,6 +494,8 @@ def gen_object_cases(chk):
             case.update(degrees=[3, degq, 3, 1], npts=[npts[0], nq, nz, 9], iota=0.0, slope=None, uniform=[True, uni[1], True, True],
                         dt=1.0, almost_node=[int(j), int(cells), delta],
                         dom=[[0.1, 14.5], [0.0, 2 * math.pi], [0.0, 0.5 * nz], [-4.0, 4.0]])
+        if k % 5 in (0, 1) and case.get('almost_node') is None:
+            case.update(iota=[0.8, -1.3][k % 2], twist_node=[rng.randrange(9), rng.randrange(6), rng.choice([1, -2, 3, nz + 1])])
         cases.append(case)
     return cases
 
@@ -478,6 +504,8 @@ def check_object(chk, c, o):
     """compare the tables and the end-to-end steps of one real object with the model; returns model requests
     first (phase 'lines'), is called again with the answers (phase 'judge')"""
     lines = []
+    if o.get('twist_node'):
+        chk.count(('twist-node', c['k']), stratum='object/twisted-field-exact-node', sample={'twist_node': o['twist_node'], 'dt': c.get('dt'), 'iota': c.get('iota')})
     for a, dth in enumerate(o['dtheta']):
         for b, zd in enumerate(o['zDist'][a]):
             lines.append('fx.pts 6 %s %s %s %s' % (qstr(fr(o['dz'])), qstr(fr(dth)), qstr(fr(zd)), qstr(fr(o['z']))))
@@ -692,7 +720,8 @@ def run():
         elif not same:
             chk.cov['disagreements_checked'] += 1
             # the gather formula oracle passed on this input (or does not apply): classify
-            no_input = c['op'] == 'step' and isinstance(impl, str) and impl.startswith('ok')
+            no_input = (c['op'] == 'step' and isinstance(impl, str) and impl.startswith('ok')) or \
+                (isinstance(impl, str) and impl.startswith('exc') and ('SimpleNamespace' in impl or "'Fraction' object" in impl or 'ufunc' in impl or '<lambda>' in impl))
             chk.violation('%s:model-mismatch:%s' % (site, c.get('cls')),
                           'exact output of the code differs from the model: %s / %s' % (str(impl)[:100], m[0][:100]), replay, no_input=no_input)
     # ---- real objects
